@@ -106,6 +106,18 @@ var Corpus = []CorpusEntry{
 		ops = append(ops, LLen("k1"), LRange("k1", 0, 3), LPopBack("k1"), LInsertAfter("k1", VStr("a"), VStr("z")), LRange("k1", 0, 2))
 		return one(ops...)
 	}},
+	{Name: "scan_across_a_store_into_the_iterated_set", Props: []string{"C16"}, Known: "kf_iteration_across_store_into_iterated_key", Build: func(b int64) []*Step {
+		st := one(EAdd("k1", VStr("b")), EAdd("k1", VStr("a")))
+		return append(st, IterationAcross('E', "k1", func() *Op { return EStore("union", "k1", "k1") }, "kf_iteration_across_store_into_iterated_key"))
+	}},
+	{Name: "scan_across_a_store_into_the_iterated_sorted_set", Props: []string{"C16"}, Known: "kf_iteration_across_store_into_iterated_key", Build: func(b int64) []*Step {
+		st := one(ZAdd("k1", VStr("b"), 2), ZAdd("k1", VStr("a"), 1))
+		return append(st, IterationAcross('Z', "k1", func() *Op { return ZStore(false, "sum", "k1", "k1") }, "kf_iteration_across_store_into_iterated_key"))
+	}},
+	{Name: "scan_across_a_move_from_the_set_to_itself", Props: []string{"C16"}, Known: "kf_iteration_across_move_to_same_key", Build: func(b int64) []*Step {
+		st := one(EAdd("k1", VStr("b")), EAdd("k1", VStr("a")))
+		return append(st, IterationAcross('E', "k1", func() *Op { return EMove("k1", "k1", VStr("b")) }, "kf_iteration_across_move_to_same_key"))
+	}},
 	{Name: "key_len_counts_expired_keys", Props: []string{"C06", "C10"}, Known: "kf_keylen_counts_expired", Build: func(b int64) []*Step {
 		return one(SSet("k1", VStr("v")), SSet("k2", VStr("w")), KExpireAt("k1", b-2*hour), KLen(), KCount("k1", "k2"))
 	}},
